@@ -2,7 +2,7 @@
 """regenerate /verif/seeded/SEEDS.md from the meta.json / trial.json of every archived seeded change"""
 import json, glob, os
 rows = []
-for d in sorted(glob.glob('/verif/seeded/[CRSTUVWXY]???')):
+for d in sorted(glob.glob('/verif/seeded/[CRSTUVWXYZ]???')):
     n = os.path.basename(d)
     meta = json.load(open(d + '/meta.json')) if os.path.exists(d + '/meta.json') else {}
     tr = json.load(open(d + '/trial.json')) if os.path.exists(d + '/trial.json') else {}
